@@ -29,8 +29,58 @@ def attempt(prepare, which):
     return why
 
 
+def narrow_window(which, total, window, grant):
+    """the peer's window is open but narrower than one packet, and reopens in small grants while sendall runs: every byte
+    of the data, in order and once, must be in the data messages handed to the transport when sendall returns"""
+    from paramiko.message import Message
+    c, t = mk(window, 2 ** 15)
+    data = bytes((i * 7 + (i >> 8)) % 256 for i in range(total))
+    out = {}
+
+    def run():
+        try:
+            getattr(c, which)(data)
+            out["returned"] = True
+        except Exception as e:
+            out["raised"] = repr(e)
+
+    th = threading.Thread(target=run, daemon=True)
+    th.start()
+    for _ in range(20000):
+        if not th.is_alive():
+            break
+        with c.lock:
+            if c.out_window_size == 0:
+                c.out_window_size += grant
+                c.out_buffer_cv.notify_all()
+        th.join(0.0005)
+    if th.is_alive():
+        c.closed = True
+        return ["%s of %d bytes still running after the window was reopened again and again" % (which, total)]
+    if not out.get("returned"):
+        return ["%s raised %s on an open channel" % (which, out.get("raised"))]
+    got = b""
+    for raw in t.sent:
+        if raw[:1] in (b"\x5e", b"\x5f"):
+            m = Message(raw)
+            m.get_byte(); m.get_int()
+            if raw[:1] == b"\x5f":
+                m.get_int()
+            got += m.get_binary()
+    if got != data:
+        first = next((i for i in range(min(len(got), len(data))) if got[i] != data[i]), min(len(got), len(data)))
+        return ["%s(%d bytes) returned with window %d / grants of %d: %d bytes were handed to the transport, first "
+                "difference at offset %d" % (which, total, window, grant, len(got), first)]
+    return []
+
+
 def replay_sendall(inp):
     bad = []
+    for which in ("sendall", "sendall_stderr"):
+        for total, window, grant in ((100000, 5000, 3000), (70000, 1, 40000), (32704 * 2 + 10, 32000, 100000)):
+            why = narrow_window(which, total, window, grant)
+            if why:
+                bad.append({"history": "window narrower than one packet while %s runs" % which, "why": why})
 
     def after_shutdown_write(c):
         c.eof_sent = True
